@@ -109,7 +109,8 @@ escape_chars = ''.join(k for k in char_escape_dict)
 char = fr'[\x20-\x5B\x5D-\x7E]|\\[{re.escape(escape_chars)}]|\\[xX][0-9a-fA-F]{{2}}'
 
 number_re = fr"({bin_num})|({hex_num})|('({char})')|({dec_num})"
-string_re = fr'"({char})*"'
+# non-greedy: a string ends at its first unescaped '"' (so two strings can share a line)
+string_re = fr'"({char})*?"'
 
 
 def get_char_value_and_length(s: str) -> Tuple[int, int]:
